@@ -53,7 +53,7 @@ def key_pattern(rng, N):
 COUNTERS = [0, 1, 2**32 - 1, 2**32, 2**32 + 1, 2**63, 2**64 - 1, 2**33, 2**32 + 7]
 
 def session(ctx, config, rng, it):
-    N = rng.choice((1, 2, 2, 3, 3, 4, 5)) if ctx.quick or rng.random() < 0.8 else rng.randrange(6, 17)
+    N = (rng.choice((1, 2, 2, 3, 3, 4, 5)) if it % 12 else rng.choice((8, 15, 16))) if ctx.quick or rng.random() < 0.8 else rng.randrange(6, 17)
     ds, pat = key_pattern(rng, N)
     Ps = [mulG(d) for d in ds]; pk33 = [ser33(P) for P in Ps]; objs = [pkobj(ctx, config, P) for P in Ps]
     if any(o is None for o in objs): return
